@@ -202,6 +202,9 @@ def run(oc, tier, seed, model_available, escalate):
         eu.write_tree(root, {name: content0})
         eccp = os.path.join(d, "ecc0.txt")
         if eu.generate(P, root, eccp) != "0":
+            # generation of a well-formed parameter set on a latin-1 tree never fails on the unchanged code: a failure is a violation
+            oc.violations.append({"input": {"params": P.describe(), "tree": {name: content0.hex()[:200]}},
+                                  "what": "generation of the ecc file failed on a well-formed parameter set"})
             oc.count("excluded: generation failed")
             continue
         ecc0 = open(eccp, "rb").read()
